@@ -19,7 +19,7 @@ RULE = ('one case = one (TT input, rmax); the case runs the full eps decision wa
         '(input, rmax, rank-decision sequence); non-trivial = a decision sequence that truncated at least one bond')
 ASSUMPTIONS = ['exact unfolding ranks from the checker\'s own SVD, used only with a spectral gap >= 1e6',
                'inflated inputs are built with the library\'s own + and - (validated by C03)']
-KINDS = ['raw_gauss', 'raw_scaled', 'raw_deficient', 'raw_zero', 'raw_over', 'inflated', 'svd_decay', 'svd_flat', 'svd_saturating', 'svd_gauss']
+KINDS = ['raw_gauss', 'raw_scaled', 'raw_deficient', 'raw_zero', 'raw_over', 'raw_over_tall', 'inflated', 'svd_decay', 'svd_flat', 'svd_saturating', 'svd_gauss']
 CR = 1e3
 
 
@@ -44,6 +44,8 @@ def cases(tier, seed):
             if kind.startswith('svd') and int(np.prod(N)) < 4:
                 continue
             for dt in ('f64', 'c128'):
+                if kind == 'raw_over_tall' and (d < 2 or d > 3 or max(N) > 2):
+                    continue
                 if dt == 'c128' and kind in ('svd_flat', 'raw_zero', 'raw_over'):
                     continue
                 for rmax in ('inf', 1, 2, 'list'):
@@ -84,6 +86,9 @@ def make_input(c):
         return build(st(q, 'zero'), 'a', c['s'])[0]
     if kind == 'raw_over':
         return build(st([1] + [7] * (d - 1) + [1], 'gauss'), 'a', c['s'])[0]
+    if kind == 'raw_over_tall':
+        # rank >= 10 x (mode x next rank): the unfoldings handed to the SVD wrapper are tall and get transposed
+        return build(st([1] + [24] * (d - 1) + [1], 'gauss'), 'a', c['s'])[0]
     if kind == 'inflated':
         x = build(st(q, 'gauss'), 'a', c['s'])[0]
         return (x + x) - x
